@@ -173,6 +173,14 @@ def check_songdir(world, names, order, ignore_dup, slash, paths):
         want_open = ("ok", ("SSCSimfile" if exp[2] else "SMSimfile", chosen)) if chosen else ("exc", "FileNotFoundError")
         if o != want_open:
             fails.append({"clause": "open() does not open the SSC in preference to the SM (FileNotFoundError without either)", "expected": want_open, "observed": o, **tag})
+        # the default filesystem (no filesystem= argument) sees the same native directory
+        if fsname == "nat" and len([n for n in names if kind_of(n)]) <= 1:
+            d0 = outcome(lambda: (lambda sd0: (norm("nat", sd0.sm_path), norm("nat", sd0.ssc_path)))(SimfileDirectory(path, ignore_duplicate=ignore_dup)))
+            if d0 != ("ok", (want_sm, want_ssc)):
+                fails.append({"clause": "SimfileDirectory without a filesystem argument does not see the native directory", "expected": [want_sm, want_ssc], "observed": d0, **tag})
+            o0 = outcome(lambda: title_of(simfile.opendir(path)[0]))
+            if o0 != want_open:
+                fails.append({"clause": "opendir without a filesystem argument does not open the native directory's simfile", "expected": want_open, "observed": o0, **tag})
         # opendir returns the same simfile and path (it never ignores duplicates)
         if expected_dir(listing, False)[0] == "ok":
             od = outcome(lambda: (lambda r: (title_of(r[0]), norm(fsname, r[1])))(simfile.opendir(path, filesystem=fsobj)))
